@@ -1,6 +1,6 @@
 //! `cachedrv`: runs histories of parser lookups in ONE process (the parse caches are process-wide) for the C15 cache
 //! transparency check.  stdin: one JSON object per line
-//!   {"id": .., "ops": [ {"api": "tok"|"word"|"prog"|"arith", "text": "..", "eg": bool, "posix": bool, "sh": bool} | {"api": "flood"} ]}
+//!   {"id": .., "ops": [ {"api": "tok"|"word"|"prog"|"arith"|"heredoc"|"param"|"brace"|"asg", "text": "..", "eg": bool, "posix": bool, "sh": bool} | {"api": "flood"} ]}
 //! stdout: {"id": .., "res": ["<hash of the Debug rendering of the result>", ...]}  ("-" for flood)
 //! `flood` performs 80 distinct lookups through every cache so that every earlier entry is evicted (capacity 64).
 use serde_json::{Value, json};
@@ -36,6 +36,11 @@ async fn lookup(shell: &mut brush_core::Shell, api: &str, text: &str, eg: bool, 
             format!("{:?}", shell.parse_string(text.to_owned()))
         }
         "arith" => format!("{:?}", brush_parser::arithmetic::parse(text)),
+        // sibling entry points of the word parser: other grammars over the same text
+        "heredoc" => format!("{:?}", brush_parser::word::parse_heredoc(text, &popts(eg, posix, sh))),
+        "param" => format!("{:?}", brush_parser::word::parse_parameter(text, &popts(eg, posix, sh))),
+        "brace" => format!("{:?}", brush_parser::word::parse_brace_expansions(text, &popts(eg, posix, sh))),
+        "asg" => format!("{:?}", brush_parser::word::parse_scalar_assignment(text, &popts(eg, posix, sh))),
         _ => "?".to_owned(),
     }
 }
